@@ -1247,6 +1247,8 @@ func TestVerifC07Designated(t *testing.T) {
 		"2 cases in 7 (stream:unmatched-reservations): every node carries 1-2 Available reservations (reserve pod record on 1-2 GPUs, 50 or 100 per GPU) that 0-2 owner pods have not / partly / fully consumed " +
 		"(+ owners that are gone), plain pods on what is left; the scheduled pods match NO reservation: PreFilter -> PreRestoreReservation -> RestoreReservation(matched none, unmatched all) on every node -> " +
 		"Filter -> [event] -> Reserve, 1 pod in 4 designated; free = total - (plain pods + what every reservation holds). " +
+		"extension 6: 1 plain case in 3 (VERIF_C07_MIXMEM) has GPUs of different memory sizes (per minor, the same on every node), half of its pods ask for two GPUs (whole, or a fraction of each via gpu.shared 2); " +
+		"every non-designated commit is compared with the model's fillGPU (`fill`), every commit judged by the memory-pair clause. " +
 		"non-trivial = at least one Reserve committed; distinct by op list")
 }
 
